@@ -84,6 +84,7 @@ def run(ctx):
         parts = []
         for k in range(rng.choice([1, 1, 2])):
             g = Gen(rng, Opts(sugar=(i % 3 == 0), max_bin=4, max_stmts=3))
+            g.o.reserved = (i % 2 == 0)
             parts.append(g.function('f%d' % k))
         files.append('\n'.join(parts))
     tmpdir = tempfile.mkdtemp(prefix='c14_')
